@@ -74,7 +74,9 @@ impl WalkIter {
     { unimplemented!() }
 }
 #[verifier::external_body]
-pub fn walk_ok_entries(dir: &String, Tracked(w): Tracked<&mut World>) -> (r: WalkIter)
+pub fn walk_ok_entries(dir: &String, follow_links: bool, Tracked(w): Tracked<&mut World>) -> (r: WalkIter)
+    requires
+        !follow_links, // [C15.symlinks]
     ensures *final(w) == *old(w), r.rest() == walk_entries(dir@), walk_wf(walk_entries(dir@), *old(w))
 { unimplemented!() }
 
